@@ -75,15 +75,15 @@ Proof. exact reference_strategies_ok. Qed.
 Print Assumptions C12_strategies_example.
 
 (* a concrete non-trivial model (the corpus model of vlib/c12.py: two user functions with if- and
-   for-statements, for-equations with offsets and a call, plain and in-loop delays, an array of
+   for-statements, for-equations with offset / reversed / scaled / squared subscripts and a call, plain and in-loop delays, an array of
    dimension n-3 = 0, an attribute calling a function): the model compiles under two different flag
    triples to the lists / delay inputs / residual lengths the REAL transfer_model produced *)
 Open Scope Qc_scope.
 Definition corpus_model : smodel :=
-  (mkSmodel [(mkDecl (C10.mkSym 0%nat 0%nat [C10.Kparameter] C10.TInteger false) None [(SNum (Q2Qc (3 # 1)))]); (mkDecl (C10.mkSym 1%nat 1%nat [] C10.TReal false) None [(SNum (Q2Qc (1 # 1))); (SNeg (SRef (SV 9%nat))); (SCall 0%nat (SRef (SV 9%nat)) (SNum (Q2Qc (2 # 1))) 0%nat)]); (mkDecl (C10.mkSym 2%nat 2%nat [] C10.TReal false) None []); (mkDecl (C10.mkSym 3%nat 3%nat [] C10.TReal false) None []); (mkDecl (C10.mkSym 4%nat 4%nat [C10.Koutput] C10.TReal false) None []); (mkDecl (C10.mkSym 5%nat 5%nat [] C10.TReal false) (Some (IPar 0%nat (0)%Z)) []); (mkDecl (C10.mkSym 6%nat 6%nat [] C10.TReal false) (Some (IPar 0%nat (1)%Z)) []); (mkDecl (C10.mkSym 7%nat 7%nat [] C10.TReal false) (Some (IPar 0%nat (-3)%Z)) []); (mkDecl (C10.mkSym 8%nat 8%nat [C10.Kinput] C10.TReal false) None []); (mkDecl (C10.mkSym 9%nat 9%nat [C10.Kparameter] C10.TReal false) None [(SNum (Q2Qc (3 # 2)))]); (mkDecl (C10.mkSym 10%nat 10%nat [C10.Kparameter] C10.TReal false) None [(SBin CMul (SRef (SV 9%nat)) (SNum (Q2Qc (2 # 1))))]); (mkDecl (C10.mkSym 11%nat 11%nat [C10.Kconstant] C10.TReal false) None [(SNum (Q2Qc (2 # 1)))]); (mkDecl (C10.mkSym 12%nat 12%nat [] C10.TBoolean false) None [])] (fun p => if Nat.eqb p 0%nat then (3)%Z else 0%Z) [(0%nat, mkSfun [(TAssign 4%nat (SBin CMul (SRef (SArg 0%nat)) (SRef (SArg 1%nat)))); (TAssign 2%nat (SBin CAdd (SRef (SArg 4%nat)) (SNum (Q2Qc (1 # 1))))); (TAssign 2%nat (SIf (SBin CGt (SRef (SArg 4%nat)) (SNum (Q2Qc (1 # 1)))) (SBin CAdd (SRef (SArg 2%nat)) (SNum (Q2Qc (1 # 1)))) (SBin CSub (SRef (SArg 2%nat)) (SNum (Q2Qc (1 # 1)))))); (TFor (1)%Z (ILit (3)%Z) 2%nat (SBin CAdd (SRef (SArg 2%nat)) (SBin CMul (SRef SLoop) (SRef (SArg 0%nat)))))] [2%nat]); (1%nat, mkSfun [(TAssign 4%nat (SBin CSub (SRef (SArg 0%nat)) (SRef (SArg 1%nat)))); (TAssign 2%nat (SBin CMul (SRef (SArg 4%nat)) (SNum (Q2Qc (2 # 1))))); (TAssign 3%nat (SBin CAdd (SRef (SArg 2%nat)) (SRef (SArg 1%nat)))); (TFor (1)%Z (ILit (2)%Z) 3%nat (SBin CAdd (SRef (SArg 3%nat)) (SRef SLoop)))] [2%nat; 3%nat])] [(MEq (SRef (SD 1%nat)) (SCall 0%nat (SRef (SV 2%nat)) (SRef (SV 8%nat)) 0%nat)); (MEq (SRef (SV 3%nat)) (SCall 1%nat (SRef (SV 1%nat)) (SRef (SV 9%nat)) 0%nat)); (MEq (SRef (SV 4%nat)) (SCall 1%nat (SRef (SV 1%nat)) (SRef (SV 9%nat)) 1%nat)); (MFor (1)%Z (IPar 0%nat (0)%Z) [((SRef (SL 5%nat (0)%Z)), (SBin CAdd (SRef (SL 6%nat (1)%Z)) (SBin CMul (SRef SLoop) (SRef (SV 1%nat)))))]); (MFor (2)%Z (IPar 0%nat (0)%Z) [((SRef (SL 6%nat (0)%Z)), (SIf (SBin CMul (SRef (SV 12%nat)) (SBin CGt (SRef (SL 5%nat (-1)%Z)) (SNum (Q2Qc (0 # 1))))) (SCall 0%nat (SRef (SL 5%nat (0)%Z)) (SRef (SV 2%nat)) 0%nat) (SRef (SV 11%nat))))]); (MForDelay (1)%Z (ILit (1)%Z) (SRef (SL 6%nat (0)%Z)) (SRef (SL 5%nat (1)%Z)) (SNum (Q2Qc (1 # 2)))); (MDelay (SRef (SI 6%nat (4)%Z)) (SBin CMul (SRef (SV 2%nat)) (SRef (SV 10%nat))) (SRef (SV 9%nat))); (MEq (SRef (SV 12%nat)) (SBin CGt (SRef (SV 1%nat)) (SRef (SV 2%nat)))); (MEq (SRef (SV 2%nat)) (SBin CSub (SRef (SV 999%nat)) (SRef (SD 1%nat))))] [(MEq (SRef (SV 1%nat)) (SRef (SV 10%nat)))]).
+  (mkSmodel [(mkDecl (C10.mkSym 0%nat 0%nat [C10.Kparameter] C10.TInteger false) None [(SNum (Q2Qc (3 # 1)))]); (mkDecl (C10.mkSym 1%nat 1%nat [] C10.TReal false) None [(SNum (Q2Qc (1 # 1))); (SNeg (SRef (SV 10%nat))); (SCall 0%nat (SRef (SV 10%nat)) (SNum (Q2Qc (2 # 1))) 0%nat)]); (mkDecl (C10.mkSym 2%nat 2%nat [] C10.TReal false) None []); (mkDecl (C10.mkSym 3%nat 3%nat [] C10.TReal false) None []); (mkDecl (C10.mkSym 4%nat 4%nat [C10.Koutput] C10.TReal false) None []); (mkDecl (C10.mkSym 5%nat 5%nat [] C10.TReal false) (Some (IPar 0%nat (0)%Z)) []); (mkDecl (C10.mkSym 6%nat 6%nat [] C10.TReal false) (Some (IPar 0%nat (1)%Z)) []); (mkDecl (C10.mkSym 7%nat 7%nat [] C10.TReal false) (Some (IPar 0%nat (-3)%Z)) []); (mkDecl (C10.mkSym 8%nat 8%nat [] C10.TReal false) (Some (ILit (7)%Z)) []); (mkDecl (C10.mkSym 9%nat 9%nat [C10.Kinput] C10.TReal false) None []); (mkDecl (C10.mkSym 10%nat 10%nat [C10.Kparameter] C10.TReal false) None [(SNum (Q2Qc (3 # 2)))]); (mkDecl (C10.mkSym 11%nat 11%nat [C10.Kparameter] C10.TReal false) None [(SBin CMul (SRef (SV 10%nat)) (SNum (Q2Qc (2 # 1))))]); (mkDecl (C10.mkSym 12%nat 12%nat [C10.Kconstant] C10.TReal false) None [(SNum (Q2Qc (2 # 1)))]); (mkDecl (C10.mkSym 13%nat 13%nat [] C10.TBoolean false) None [])] (fun p => if Nat.eqb p 0%nat then (3)%Z else 0%Z) [(0%nat, mkSfun [(TAssign 4%nat (SBin CMul (SRef (SArg 0%nat)) (SRef (SArg 1%nat)))); (TAssign 2%nat (SBin CAdd (SRef (SArg 4%nat)) (SNum (Q2Qc (1 # 1))))); (TAssign 2%nat (SIf (SBin CGt (SRef (SArg 4%nat)) (SNum (Q2Qc (1 # 1)))) (SBin CAdd (SRef (SArg 2%nat)) (SNum (Q2Qc (1 # 1)))) (SBin CSub (SRef (SArg 2%nat)) (SNum (Q2Qc (1 # 1)))))); (TFor (1)%Z (ILit (3)%Z) 2%nat (SBin CAdd (SRef (SArg 2%nat)) (SBin CMul (SRef SLoop) (SRef (SArg 0%nat)))))] [2%nat]); (1%nat, mkSfun [(TAssign 4%nat (SBin CSub (SRef (SArg 0%nat)) (SRef (SArg 1%nat)))); (TAssign 2%nat (SBin CMul (SRef (SArg 4%nat)) (SNum (Q2Qc (2 # 1))))); (TAssign 3%nat (SBin CAdd (SRef (SArg 2%nat)) (SRef (SArg 1%nat)))); (TFor (1)%Z (ILit (2)%Z) 3%nat (SBin CAdd (SRef (SArg 3%nat)) (SRef SLoop)))] [2%nat; 3%nat])] [(MEq (SRef (SD 1%nat)) (SCall 0%nat (SRef (SV 2%nat)) (SRef (SV 9%nat)) 0%nat)); (MEq (SRef (SV 3%nat)) (SCall 1%nat (SRef (SV 1%nat)) (SRef (SV 10%nat)) 0%nat)); (MEq (SRef (SV 4%nat)) (SCall 1%nat (SRef (SV 1%nat)) (SRef (SV 10%nat)) 1%nat)); (MFor (1)%Z (IPar 0%nat (0)%Z) [((SRef (SL 5%nat (IOff (0)%Z))), (SBin CAdd (SRef (SL 6%nat (IOff (1)%Z))) (SBin CMul (SRef SLoop) (SRef (SV 1%nat)))))]); (MFor (2)%Z (IPar 0%nat (0)%Z) [((SRef (SL 6%nat (IOff (0)%Z))), (SIf (SBin CMul (SRef (SV 13%nat)) (SBin CGt (SRef (SL 5%nat (IOff (-1)%Z))) (SNum (Q2Qc (0 # 1))))) (SCall 0%nat (SRef (SL 5%nat (IOff (0)%Z))) (SRef (SV 2%nat)) 0%nat) (SRef (SV 12%nat))))]); (MForDelay (1)%Z (ILit (1)%Z) (SRef (SL 6%nat (IOff (0)%Z))) (SRef (SL 5%nat (IOff (1)%Z))) (SNum (Q2Qc (1 # 2)))); (MFor (1)%Z (ILit (2)%Z) [((SRef (SL 8%nat (IRev (4)%Z))), (SBin CSub (SRef (SL 8%nat (ILin (2)%Z (3)%Z))) (SRef (SL 8%nat ISq)))); ((SRef (SL 8%nat (ILin (2)%Z (-1)%Z))), (SBin CMul (SRef (SL 6%nat (IRev (4)%Z))) (SRef (SL 5%nat (IRev (3)%Z)))))]); (MDelay (SRef (SI 6%nat (4)%Z)) (SBin CMul (SRef (SV 2%nat)) (SRef (SV 11%nat))) (SRef (SV 10%nat))); (MEq (SRef (SV 13%nat)) (SBin CGt (SRef (SV 1%nat)) (SRef (SV 2%nat)))); (MEq (SRef (SV 2%nat)) (SBin CSub (SRef (SV 999%nat)) (SRef (SD 1%nat))))] [(MEq (SRef (SV 1%nat)) (SRef (SV 11%nat)))]).
 Example C12_concrete_example :
   check_case (corpus_model,
-    [ (mkFlags false false false, (Some ((C10.mkObs [1%nat] [(C10.Der 1%nat)] [2%nat; 3%nat; 4%nat; 5%nat; 6%nat; 12%nat] [8%nat] [0%nat; 9%nat; 10%nat] [11%nat] [] [] [4%nat]), 2%nat, (12%nat, 1%nat, 4%nat))));
-      (mkFlags true false true, (Some ((C10.mkObs [1%nat] [(C10.Der 1%nat)] [2%nat; 3%nat; 4%nat; 5%nat; 6%nat; 12%nat] [8%nat] [0%nat; 9%nat; 10%nat] [11%nat] [] [] [4%nat]), 2%nat, (12%nat, 1%nat, 4%nat)))) ]) = true.
+    [ (mkFlags false false false, (Some ((C10.mkObs [1%nat] [(C10.Der 1%nat)] [2%nat; 3%nat; 4%nat; 5%nat; 6%nat; 8%nat; 13%nat] [9%nat] [0%nat; 10%nat; 11%nat] [12%nat] [] [] [4%nat]), 2%nat, (16%nat, 1%nat, 4%nat))));
+      (mkFlags true false true, (Some ((C10.mkObs [1%nat] [(C10.Der 1%nat)] [2%nat; 3%nat; 4%nat; 5%nat; 6%nat; 8%nat; 13%nat] [9%nat] [0%nat; 10%nat; 11%nat] [12%nat] [] [] [4%nat]), 2%nat, (16%nat, 1%nat, 4%nat)))) ]) = true.
 Proof. vm_compute. reflexivity. Qed.
 Print Assumptions C12_concrete_example.
